@@ -36,13 +36,13 @@ theorem duplexLifecycle_contents (t : GTask) (ss : List String) :
     simp only [duplexLifecycle, List.mem_cons, List.mem_map] at hf
     rcases hf with rfl | ⟨s, _, rfl⟩ <;> exact ⟨by simp [gframe, gmeta, metaGet], rfl⟩
 
-variable (duplexOf : SFrame → Bool)
+variable (duplexOf parses : SFrame → Bool)
 
 /-- C18: a spawn for a name that is already running yields exactly one `.spawn.error` naming
     it and changes nothing -/
 theorem running_name_rejected (tbl : List GTask) (f : SFrame) (name : String) (t0 : GTask)
     (hc : gclassify f.topic = some (name, .spawn)) (hh : gtblHas tbl (f.ctx, name) = some t0) :
-    genStep duplexOf tbl f =
+    genStep duplexOf parses tbl f =
       (tbl, some (.reject (spawnError name f "Updating existing generator is not implemented"))) := by
   simp [genStep, hc, hh]
 
@@ -50,7 +50,7 @@ theorem running_name_rejected (tbl : List GTask) (f : SFrame) (name : String) (t
 theorem missing_content_rejected (tbl : List GTask) (f : SFrame) (name : String)
     (hc : gclassify f.topic = some (name, .spawn)) (hh : gtblHas tbl (f.ctx, name) = none)
     (hn : f.content = none) :
-    genStep duplexOf tbl f = (tbl, some (.reject (spawnError name f "Missing hash"))) := by
+    genStep duplexOf parses tbl f = (tbl, some (.reject (spawnError name f "Missing hash"))) := by
   simp [genStep, hc, hh, hn]
 
 theorem spawnError_names (name : String) (f : SFrame) (reason : String) :
@@ -61,22 +61,30 @@ theorem spawnError_names (name : String) (f : SFrame) (reason : String) :
 /-- C18: an accepted spawn starts a lifecycle of a task with the spawn's id and context -/
 theorem accepted_spawn_starts (tbl : List GTask) (f : SFrame) (name c : String)
     (hc : gclassify f.topic = some (name, .spawn)) (hh : gtblHas tbl (f.ctx, name) = none)
-    (hn : f.content = some c) :
-    genStep duplexOf tbl f =
+    (hn : f.content = some c) (hp : parses f = true) :
+    genStep duplexOf parses tbl f =
       (tbl ++ [{ id := f.id, ctx := f.ctx, name := name, duplex := duplexOf f }],
        some (.start { id := f.id, ctx := f.ctx, name := name, duplex := duplexOf f })) := by
-  simp [genStep, hc, hh, hn]
+  simp [genStep, hc, hh, hn, hp]
+
+/-- C18: a spawn whose expression does not parse yields exactly one `.spawn.error` naming it
+    and occupies nothing -/
+theorem unparsable_rejected (tbl : List GTask) (f : SFrame) (name c : String)
+    (hc : gclassify f.topic = some (name, .spawn)) (hh : gtblHas tbl (f.ctx, name) = none)
+    (hn : f.content = some c) (hp : parses f = false) :
+    genStep duplexOf parses tbl f = (tbl, some (.reject (spawnError name f "Parse error"))) := by
+  simp [genStep, hc, hh, hn, hp]
 
 /-- C18: after a stop the generator is started again, as the same task -/
 theorem stop_restarts (tbl : List GTask) (f : SFrame) (name : String) (t0 : GTask)
     (hc : gclassify f.topic = some (name, .stop)) (hh : gtblHas tbl (f.ctx, name) = some t0) :
-    genStep duplexOf tbl f = (tbl, some (.start t0)) := by
+    genStep duplexOf parses tbl f = (tbl, some (.start t0)) := by
   simp [genStep, hc, hh]
 
 /-- C18/C06: a `.stop` (or anything else) of another context or name starts nothing -/
 theorem foreign_stop_ignored (tbl : List GTask) (f : SFrame) (name : String)
     (hc : gclassify f.topic = some (name, .stop)) (hh : gtblHas tbl (f.ctx, name) = none) :
-    genStep duplexOf tbl f = (tbl, none) := by
+    genStep duplexOf parses tbl f = (tbl, none) := by
   simp [genStep, hc, hh]
 
 /-- C18 (duplex): what an instance reads is the content of exactly the `.send` frames of its
